@@ -512,17 +512,7 @@ class SqlalchemyRender:
             col = self.to_expression(t)
             cols.append(col)
 
-        query = sa.select(*cols)
-
-        if node.cte is not None:
-            for cte in node.cte:
-                if cte.columns is not None and len(cte.columns) > 0:
-                    raise NotImplementedError('CTE columns')
-
-                stmt = self.prepare_select(cte.query)
-                alias = cte.name
-
-                query = query.add_cte(stmt.cte(self.get_alias(alias), nesting=not getattr(self, '_hoist_ctes', False)))
+        query = self.add_ctes(sa.select(*cols), node)
 
         if node.distinct:
             query = query.distinct()
@@ -635,6 +625,19 @@ class SqlalchemyRender:
 
         return query
 
+    def add_ctes(self, query, node):
+        # the WITH clause of a select, or of a parenthesised set operation: WITH x AS (...) (select UNION select)
+        if node.cte is not None:
+            for cte in node.cte:
+                if cte.columns is not None and len(cte.columns) > 0:
+                    raise NotImplementedError('CTE columns')
+
+                stmt = self.prepare_select(cte.query)
+                alias = cte.name
+
+                query = query.add_cte(stmt.cte(self.get_alias(alias), nesting=not getattr(self, '_hoist_ctes', False)))
+        return query
+
     def prepare_union(self, from_table):
         # SQLite does not read a parenthesised operand of a set operation ("(a UNION b) UNION c"):
         #  an operand that is itself a set operation is read from a derived table, and a WITH clause written in
@@ -667,7 +670,7 @@ class SqlalchemyRender:
         else:
             func = sa.union if from_table.unique else sa.union_all
 
-        return func(step1, step2)
+        return self.add_ctes(func(step1, step2), from_table)
 
     def prepare_create_table(self, ast_query):
         columns = []
